@@ -11,6 +11,8 @@ from sa.guards import GuardView, atom_of, names_in, or_parts
 from sa.index import own_nodes
 from sa.pairs import PairAnalysis, place, strip_copy
 from sa.report import Ctx
+
+from .common import generic_sweeps
 from sa.undefined import possibly_undefined
 
 from .sat_common import _enclosing_block
@@ -526,6 +528,7 @@ def run(ctx: Ctx):
     check_group_b(ctx)
     check_bounds(ctx)
     check_evaluator(ctx)
+    generic_sweeps(ctx)
 
 
 # ---------------------------------------------------------------------------------------------
